@@ -152,6 +152,11 @@ def main(tier, replay):
                 sig = "C16 API call never returned: " + cl.hang_signature(res)
                 findings.setdefault(sig, ({"kind": "schedule", "sched": s, "observed": cl.summarize(res), "attempts": 40},
                                           "an API call neither returned its reply nor an error"))
+            elif ".Call.func" in (res.get("why") or "") or ".CallProgressive.func1" in (res.get("why") or ""):
+                # the goroutine that runs the progress handler outlives the call
+                sig = "C16 progress-handler goroutine left after the call returned: " + cl.hang_signature(res)
+                findings.setdefault(sig, ({"kind": "schedule", "sched": s, "observed": cl.summarize(res)},
+                                          "Call / CallProgressive returned without releasing its progress goroutine"))
             else:
                 deferred += 1
             continue
